@@ -20,6 +20,10 @@ func main() {
 		n, _ := strconv.Atoi(os.Args[3])
 		os.Exit(c08Worker(os.Args[2], n))
 	}
+	if prop == "c11worker" && len(os.Args) > 2 {
+		n, _ := strconv.Atoi(os.Args[2])
+		os.Exit(c11Worker(n))
+	}
 	if prop == "c19worker" && len(os.Args) > 2 {
 		os.Exit(c19Worker(os.Args[2]))
 	}
